@@ -1679,7 +1679,6 @@ func init() {
 	reg("C08", ruleEmittedPythonBlocksAreNeverEmpty)
 }
 
-
 func backEndOf(pkgPath string) string {
 	rest := pkgPath
 	if i := strings.Index(rest, "/internal/"); i >= 0 {
@@ -1744,7 +1743,6 @@ func lastBackEndOfARun(c *core.Ctx) (last string, order []string, decided bool) 
 	}
 	return "", nil, false
 }
-
 
 // nameOnlyPredicate: the call goes to a function of the module whose body consists of calls from the allowed set (and
 // of such helpers): a predicate over the file name, factored out of the walk callback.
